@@ -446,10 +446,12 @@ func idemAttr(cl map[string]string, from, T *Config, calls []Call, agree, relist
 	if !agree || len(calls) == 0 {
 		return "other", attrs
 	}
-	// (a) inline service entries written with white space: only such rules are deleted and re-created
+	// (a) inline service entries written with white space: such a rule is deleted and re-created.
+	// A call is of class (a) if it is the DELETE of a manager rule carrying the compact form of the entries
+	// of a target rule the model names in spacedRules, or the PUT of a rule with such entries.
+	spaced := listFlag(cl, "spacedRules")
+	want := map[string]bool{}
 	if cl["compactT"] == "0" {
-		spaced := listFlag(cl, "spacedRules")
-		want := map[string]bool{} // compact form of the entries of the target rules the model names
 		for _, p := range T.Policies {
 			for _, r := range p.Rules {
 				if spaced[p.Id+"/"+r.Id] {
@@ -457,30 +459,11 @@ func idemAttr(cl map[string]string, from, T *Config, calls []Call, agree, relist
 				}
 			}
 		}
-		ok, nd, na := true, 0, 0
-		for _, k := range calls {
-			switch k.Kind {
-			case "DR":
-				r := findRule(from, k.Id, k.Rid)
-				ok = ok && r != nil && want[k.Id+"\x00"+r.SvcEntries]
-				nd++
-			case "PR": // PUT of a rule; the body is marshalled, which compacts the inline entries
-				ok = ok && k.Rule != nil && k.Rule.SvcEntries != "" && want[k.Id+"\x00"+compactStr(k.Rule.SvcEntries)]
-				na++
-			default:
-				ok = false
-			}
-		}
-		if ok && nd == na {
-			attrs["only"] = "delete-and-recreate-of-rules-with-spaced-service-entries"
-			return "inline_service_entries_not_compact", attrs
-		}
-		return "other", attrs
 	}
-	// (b) target groups with equal content, manager lists its objects in another order: only rules
-	// that use such a group are touched
-	if relisted && cl["distinctT"] == "0" {
-		twins := map[string]bool{}
+	// (b) target groups with equal content: a call is of class (b) if it creates / removes a group whose
+	// address set two target groups share (twinGroups), or writes / deletes a rule that uses such a group.
+	twins := map[string]bool{}
+	if cl["distinctT"] == "0" {
 		ids := listFlag(cl, "twinGroups")
 		for _, g := range T.Groups {
 			if ids[g.Id] {
@@ -488,41 +471,79 @@ func idemAttr(cl map[string]string, from, T *Config, calls []Call, agree, relist
 				twins[c] = true
 			}
 		}
-		created := map[string]string{} // groups this very plan creates
-		for _, k := range calls {
-			if k.Kind == "PG" {
-				a := append([]string(nil), k.Addrs...)
-				sort.Strings(a)
-				created[gpath(k.Id)] = strings.Join(a, ",")
-			}
+	}
+	created := map[string]string{} // groups this very plan creates
+	for _, k := range calls {
+		if k.Kind == "PG" {
+			a := append([]string(nil), k.Addrs...)
+			sort.Strings(a)
+			created[gpath(k.Id)] = strings.Join(a, ",")
 		}
-		isTwin := func(path string) bool {
-			if c, ok := created[path]; ok {
-				return twins[c]
-			}
-			c, ok := groupContent(from, path)
-			return ok && twins[c]
+	}
+	isTwin := func(path string) bool {
+		if c, ok := created[path]; ok {
+			return twins[c]
 		}
-		usesTwin := func(r *Rule) bool {
-			return r != nil && (isTwin(r.Src) || isTwin(r.Dst))
-		}
-		ok := true
-		for _, k := range calls {
-			switch k.Kind {
-			case "DR":
-				ok = ok && usesTwin(findRule(from, k.Id, k.Rid))
-			case "PR", "AR": // PUT / PATCH of a rule
-				ok = ok && usesTwin(k.Rule)
-			case "PG", "DG": // the twin is created under another id / removed
-				ok = ok && isTwin(gpath(k.Id))
+		c, ok := groupContent(from, path)
+		return ok && twins[c]
+	}
+	usesTwin := func(r *Rule) bool {
+		return r != nil && (isTwin(r.Src) || isTwin(r.Dst))
+	}
+	nd, na, nb, rest := 0, 0, 0, 0
+	for _, k := range calls {
+		switch k.Kind {
+		case "DR":
+			r := findRule(from, k.Id, k.Rid)
+			switch {
+			case r != nil && want[k.Id+"\x00"+r.SvcEntries]:
+				nd++
+			case usesTwin(r):
+				nb++
 			default:
-				ok = false
+				rest++
 			}
+		case "PR": // PUT of a rule; the body is marshalled, which compacts the inline entries
+			switch {
+			case k.Rule != nil && k.Rule.SvcEntries != "" && want[k.Id+"\x00"+compactStr(k.Rule.SvcEntries)]:
+				na++
+			case usesTwin(k.Rule):
+				nb++
+			default:
+				rest++
+			}
+		case "AR": // PATCH of a rule
+			if usesTwin(k.Rule) {
+				nb++
+			} else {
+				rest++
+			}
+		case "PG", "DG": // the twin is created under another id / removed
+			if isTwin(gpath(k.Id)) {
+				nb++
+			} else {
+				rest++
+			}
+		default:
+			rest++
 		}
-		if ok {
-			attrs["only"] = "rules-and-groups-with-a-twin"
-			return "target_groups_with_equal_content", attrs
-		}
+	}
+	switch {
+	case rest > 0 || nd != na:
+		return "other", attrs
+	case nd > 0 && nb == 0:
+		attrs["only"] = "delete-and-recreate-of-rules-with-spaced-service-entries"
+		return "inline_service_entries_not_compact", attrs
+	case nd == 0 && nb > 0 && relisted:
+		// alone, the twins show only when the manager lists its objects in another order
+		attrs["only"] = "rules-and-groups-with-a-twin"
+		return "target_groups_with_equal_content", attrs
+	case nd > 0 && nb > 0:
+		// both at once: the re-created rules claim manager groups anew (adaptGroup / findGroupOnDevice), and with
+		// two target groups of equal content the claim may take the group another rule uses, which is then
+		// given a new group; every call belongs to one of the two classes
+		attrs["only"] = "delete-and-recreate-of-rules-with-spaced-service-entries+rules-and-groups-with-a-twin"
+		return "inline_service_entries_not_compact+target_groups_with_equal_content", attrs
 	}
 	return "other", attrs
 }
@@ -713,7 +734,7 @@ func (e *engine) oneCase(c *Case) {
 		case po2.real.Kind == "ok" && len(po2.real.Calls) > 0:
 			cl2 := e.class(ro.final, T)
 			pr, at := idemAttr(cl2, loaded(ro.final), T, po2.real.Calls, po2.exact, false)
-			e.fail("idem", pr, at, fmt.Sprintf("second compare reports %d changes: %s", len(po2.real.Calls), cut(strings.ReplaceAll(showCalls(po2.real.Calls), "\n", " | "), 1200)), c)
+			e.fail("idem", pr, at, fmt.Sprintf("second compare reports %d changes: %s", len(po2.real.Calls), cut(strings.ReplaceAll(showCalls(po2.real.Calls), "\n", " | "), 4000)), c)
 		case po2.real.Kind == "ok":
 			res.Count("idem:empty")
 			// the manager may list rules, groups and services in any order: the plan must stay empty
